@@ -250,6 +250,35 @@ example : run true (fun c => if c = 0 then .reverse else .regular) State.init [(
      (1, .tunnel, []),
      (1, .response, [⟨.originDirect, .request, false, none⟩])] := by decide +kernel
 
+/-- **C24 under runtime changes of `upstream_auth`** (unset → set, set → unset, in any order, between any two events —
+    e.g. a CONNECT tunnel opened while the option was unset and used after it was set): the same confinement holds,
+    because a tunnel is remembered whether or not credentials are configured at that moment. -/
+theorem creds_confined_under_option_changes (modes : Nat → Mode) :
+    ∀ (es : List (Nat × Bool × Ev)) (σ : State), Inv modes σ →
+      ∀ x ∈ runVar modes σ es, ∀ w ∈ x.2.2, w.cred ≠ none → Allowed (modes x.1) w := by
+  intro es
+  induction es with
+  | nil => intro σ _ x hx; simp [runVar] at hx
+  | cons ev rest ih =>
+    intro σ hinv x hx
+    obtain ⟨cid, auth, e⟩ := ev
+    simp only [runVar, List.mem_cons] at hx
+    rcases hx with rfl | hx
+    · exact step_allowed auth modes σ cid e hinv
+    · exact ih _ (step_inv auth modes σ cid e hinv) x hx
+
+/-- … from the start of the proxy -/
+theorem creds_confined_under_option_changes_from_start (modes : Nat → Mode) (es : List (Nat × Bool × Ev))
+    (cid : Nat) (k : Kind) (ws : List Write) (hx : (cid, k, ws) ∈ runVar modes State.init es)
+    (w : Write) (hw : w ∈ ws) (hc : w.cred ≠ none) : Allowed (modes cid) w :=
+  creds_confined_under_option_changes modes es State.init (inv_init modes) (cid, k, ws) hx w hw hc
+
+-- the tunnel opened while the option is unset is still a tunnel when the option is set later
+example : runVar (fun _ => .upstream) State.init [(0, false, .connect), (0, true, .req false), (1, true, .req false)] =
+    [(0, .tunnel, []),
+     (0, .response, [⟨.proxy, .connect, false, some .proxyAuthorization⟩, ⟨.originViaTunnel, .request, false, none⟩]),
+     (1, .response, [⟨.proxy, .request, false, some .proxyAuthorization⟩])] := by decide +kernel
+
 /-! ## Round 3: the routing model — the connection parameters are predicted, reuse included -/
 
 section Routing
@@ -519,6 +548,44 @@ theorem route_creds_confined (auth : Bool) (modes : Nat → Mode) (es : List (Na
     (partyOf (modes cid) c w = .proxy ∧ modes cid = .upstream) ∨
     (partyOf (modes cid) c w = .reverseTarget ∧ modes cid = .reverse) :=
   route_creds_only_to_proxy_or_reverse_target auth modes es _ (rinv_init modes) (cid, o) hx c hc w hw hcred
+
+/-- the routing model under runtime changes of `upstream_auth` -/
+theorem route_creds_confined_under_option_changes (modes : Nat → Mode) :
+    ∀ (es : List (Nat × Bool × REv)) (σ : RState), RInv modes σ →
+      ∀ x ∈ rrunVar modes σ es, ∀ c, x.2.conn = some c → ∀ w ∈ x.2.writes, w.cred ≠ none →
+        (partyOf (modes x.1) c w = .proxy ∧ modes x.1 = .upstream) ∨
+        (partyOf (modes x.1) c w = .reverseTarget ∧ modes x.1 = .reverse) := by
+  intro es
+  induction es with
+  | nil => intro σ _ x hx; simp [rrunVar] at hx
+  | cons ev rest ih =>
+    intro σ hinv x hx
+    obtain ⟨cid, auth, e⟩ := ev
+    simp only [rrunVar, List.mem_cons] at hx
+    rcases hx with rfl | hx
+    · exact rstep_allowed auth (modes cid) _ _ e (hinv cid)
+    · refine ih _ ?_ x hx
+      have hstep := rstep_cinv auth (modes cid) (σ.tunneled.contains cid) (σ.conns cid) e (hinv cid)
+      by_cases hk : (rstep auth (modes cid) (σ.tunneled.contains cid) (σ.conns cid) e).2.kind = Kind.tunnel
+      · intro c
+        simp only [hk, if_true]
+        by_cases hc : c = cid
+        · subst hc
+          simp only [hk, beq_self_eq_true, Bool.or_true] at hstep
+          simpa using hstep
+        · simp only [hc, if_false]
+          have hcc : (cid :: σ.tunneled).contains c = σ.tunneled.contains c := by
+            simp [List.contains_cons, hc]
+          rw [hcc]; exact hinv c
+      · intro c
+        simp only [hk, if_false]
+        by_cases hc : c = cid
+        · subst hc
+          have hkb : ((rstep auth (modes c) (σ.tunneled.contains c) (σ.conns c) e).2.kind == Kind.tunnel) = false := by
+            simpa using hk
+          simp only [hkb, Bool.or_false] at hstep
+          simpa using hstep
+        · simp only [hc, if_false]; exact hinv c
 
 -- non-vacuity: reuse, scheme change and a tunnel in one upstream-mode history
 example : (rrun true (fun _ => .upstream) (RState.init (fun _ => .upstream))
